@@ -338,6 +338,29 @@ func genCB(g *h.Gen) {
 		}
 		g.Emit("cb %sR 2 1; D 0 0 0; D 1 0 0; F %d 0,0,0,0,0,-,-; Q 0 0; G 1 0; F 120 0,0,0,0,0,-,-; Q 0 0; G 1 0", v, fr)
 	}
+	// directed: lock sequences.  The statement knows one lock state per cell ("false while the cell is locked", "true after
+	// unlock"): a cell locked twice (three times) and unlocked once is unlocked and dirty; unlock of a cell that was never
+	// locked; lock - unlock - lock; with the cell clean or changed meanwhile, first / last cell of the buffer.
+	{
+		v := ""
+		if fillZWSuffix() != "" {
+			v = "V fz; "
+		}
+		d := "0,0,0,0,0,-,-"
+		for _, xy := range [][2]int{{0, 0}, {2, 1}, {1, 0}} {
+			x, y := xy[0], xy[1]
+			for _, mid := range []string{"", fmt.Sprintf("S %d %d 98 - %s; ", x, y, d), fmt.Sprintf("F 46 %s; ", d), fmt.Sprintf("D %d %d 0; ", x, y)} {
+				pre := fmt.Sprintf("cb %sR 3 2; S %d %d 97 - %s; D %d %d 0; ", v, x, y, d, x, y)
+				L, U, Q := fmt.Sprintf("L %d %d; ", x, y), fmt.Sprintf("U %d %d; ", x, y), fmt.Sprintf("Q %d %d; ", x, y)
+				tail := fmt.Sprintf("D %d %d 0; Q %d %d; G %d %d", x, y, x, y, x, y)
+				g.Emit("%s%s%s%s%s%s%s", pre, L, L, mid, U, Q, tail)
+				g.Emit("%s%s%s%s%s%s%s%s%s%s", pre, L, L, L, mid, U, Q, U, Q, tail)
+				g.Emit("%s%s%s%s%s%s%s%s", pre, L, U, L, mid, Q, U, Q+tail)
+				g.Emit("%s%s%s%s%s", pre, mid, U, Q, tail)
+				g.Emit("%s%s%s%s%s%s%s%s%s", pre, L, mid, U, U, Q, L, Q, U+Q+tail)
+			}
+		}
+	}
 	n := g.N(3000, 200000)
 	for i := 0; i < n; i++ {
 		var ops []string
@@ -441,7 +464,17 @@ func genCB(g *h.Gen) {
 			case k < 75:
 				ops = append(ops, fmt.Sprintf("D %d %d %d", cx(), cy(), r.Intn(4)/3)) // mostly clean
 			case k < 80:
-				ops = append(ops, fmt.Sprintf("L %d %d", cx(), cy()))
+				lx, ly := cx(), cy()
+				ops = append(ops, fmt.Sprintf("L %d %d", lx, ly))
+				if r.Chance(25) { // the same cell locked again, now or a little later; then one unlock and a look at Dirty
+					if r.Chance(50) {
+						set(cx(), cy(), RandRune(r), RandComb(r), RandStyle(r).String())
+					}
+					ops = append(ops, fmt.Sprintf("L %d %d", lx, ly))
+					if r.Chance(70) {
+						ops = append(ops, fmt.Sprintf("U %d %d", lx, ly), fmt.Sprintf("Q %d %d", lx, ly))
+					}
+				}
 			case k < 85:
 				ops = append(ops, fmt.Sprintf("U %d %d", cx(), cy()))
 			case k < 92:
